@@ -181,6 +181,11 @@ func ObserveStr(label, s string) { Trace = append(Trace, label+" "+strconv.Quote
 
 func Reach(label string) {}
 
+// SymIP tells the executor's net.ParseIP model that the marker string parses
+// to the given (symbolic) address bytes; natively the harness passes the real
+// textual address, so this is a no-op.
+func SymIP(marker string, ip []byte) {}
+
 // RandDrawsEqual: under the symbolic executor, "the first two crypto/rand.Read
 // draws returned identical bytes"; natively the draws are real randomness.
 func RandDrawsEqual() bool { return false }
